@@ -1,6 +1,6 @@
 import ast, z3
-from vf2.spec import *
-from vf2.idioms import is_call
+from vf.spec import *
+from vf.idioms import is_call
 JD = ListT(INT, tagged=True); JDD = DictT(JD, REAL)
 MSUM = z3.Function("msum", JDD.sort(), z3.RealSort())
 SCALED = z3.Function("scaled", JDD.sort(), JDD.sort(), z3.RealSort(), z3.BoolSort())
